@@ -83,7 +83,8 @@ def observed_index(c, r):
     if not calls:
         return ("no-generic-call",)
     w, isz, nbytes = calls[-1]
-    nval = len(c["meta"]["want"])
+    want = c["meta"]["want"]
+    nval = c.get("nval", c["n"]) if isinstance(want, str) else len(want)
     return ("generic", nbytes // nval if nval and nbytes % nval == 0 else ("nbytes", nbytes), isz)
 
 
